@@ -21,4 +21,13 @@ def chainState : St :=
     conds := [{ coop := true }, { coop := false }] }
 
 
+/-- `n` tasks of kind `k` that sleep until instant `t` -/
+def sleepers (k : Kind) (n t : Nat) : St :=
+  { tasks := List.replicate n { kind := k, prog := [.sleepUntil t] } }
+
+/-- a runtime task that sleeps until instant 5 and then wakes condition 0, a local task awaiting condition 0 -/
+def timerChain : St :=
+  { tasks := [{ kind := .rt, prog := [.sleepUntil 5, .wake 0] }, { kind := .loc, prog := [.wait 0, .sleep 2] }],
+    conds := [{ coop := false }] }
+
 end Exec
